@@ -3,6 +3,7 @@ package main
 import (
 	"fmt"
 	"io"
+	"sort"
 	"strings"
 	"time"
 
@@ -47,6 +48,7 @@ func c18bridge(steps, bound, slice int) *explore.Scenario {
 		var script []string
 		var got [2][]string // got[d]: messages read at the far end of direction d (d=0: written on conn0, read on conn1)
 		var m brModel
+		var rearmed [2]bool
 		finished := false
 		var viol *explore.Violation
 		body := func() {
@@ -143,9 +145,14 @@ func c18bridge(steps, bound, slice int) *explore.Scenario {
 					m.dropN[d] = a
 				case strings.HasPrefix(op, "ReorderNext"):
 					fmt.Sscanf(op, "ReorderNext(%d,%d)", &d, &a)
-					if m.reordN[d] > 0 || m.dropN[d] > 0 || m.filter[d] {
+					if m.dropN[d] > 0 || m.filter[d] {
 						script = append(script, "skip")
 						continue
+					}
+					if m.reordN[d] > 0 {
+						// re-armed while a window is partly collected: nothing may be lost or duplicated;
+						// the order within the merged window is not specified by the property
+						rearmed[d] = true
 					}
 					script = append(script, op)
 					br.ReorderNextNWrites(d, a)
@@ -220,7 +227,13 @@ func c18bridge(steps, bound, slice int) *explore.Scenario {
 				for _, w := range m.deliver[d] {
 					want = append(want, cut(w, slice))
 				}
-				if fmt.Sprintf("%q", want) != fmt.Sprintf("%q", got[d]) {
+				g := got[d]
+				if rearmed[d] {
+					want, g = append([]string(nil), want...), append([]string(nil), g...)
+					sort.Strings(want)
+					sort.Strings(g)
+				}
+				if fmt.Sprintf("%q", want) != fmt.Sprintf("%q", g) {
 					kind := "wrong-delivery"
 					if len(got[d]) > len(want) {
 						kind = "duplicate-or-invented"
@@ -401,7 +414,7 @@ func c18dpipe(steps int) *explore.Scenario {
 }
 
 func init() {
-	register(&Check{ID: "C18",
+	register(&Check{ID: "C18", YieldOnRelease: true,
 		Scenarios: func(tier string) []*explore.Scenario {
 			if tier == "quick" {
 				return []*explore.Scenario{c18bridge(4, 0, 8), c18bridge(3, 0, 2), c18bridge(3, 0, 0), c18bridge(2, 1, 8), c18dpipe(4)}
@@ -409,6 +422,6 @@ func init() {
 			return []*explore.Scenario{c18bridge(5, 0, 8), c18bridge(4, 0, 2), c18bridge(3, 0, 0), c18bridge(3, 1, 8), c18dpipe(6)}
 		},
 		Rule: "Bridge: every script of the stated length over {writes of 0/1/3-byte messages in both directions, DropNextNWrites, ReorderNextNWrites (1,2,3; also repeated), Drop, Reorder, Filter, Tick, Process} with parked reader threads (slices of 0, 2, 8 bytes), compared per endpoint with a script interpreter; dpipe: every script over {writes both ways incl. empty, reads with short/long slices, Close of either end, filling the 1000-message buffer}",
-		Assumptions: []string{"precedence between simultaneously pending impairments and Drop with an offset beyond the queue are not specified by the property: such steps are skipped",
+		Assumptions: []string{"precedence between simultaneously pending impairments and Drop with an offset beyond the queue are not specified by the property: such steps are skipped; ReorderNextNWrites re-armed while a window is partly collected: messages are compared as a multiset for that direction (nothing lost, duplicated or invented; order within the merged window unspecified)",
 			"a one-message reordering delivers that message (reversal of one element)"}})
 }
